@@ -360,8 +360,8 @@ def rdataWire (origin : Option (List UInt8)) : PRdata → Option (List UInt8)
   SRV, TXT, HINFO, AAAA (names relative / absolute / `@`; character-strings quoted or unquoted with
   escapes).  Directives: `$ORIGIN <absolute name>`, `$TTL <decimal>`,
   `$INCLUDE <path> [<origin>]`.  Blank and comment-only
-  lines.  Not in this subset (see C23.lean): `::`-compressed or IPv4-suffixed AAAA, WKS and Chaosnet A typed syntax, parentheses
-  in directives, a last line without newline. -/
+  lines.  Not in this subset (see C23.lean): `::`-compressed or IPv4-suffixed AAAA, WKS and Chaosnet A typed syntax,
+  a last line without newline. -/
 
 inductive POwner where
   | same
@@ -387,10 +387,13 @@ structure PRecord where
 inductive PEntry where
   | blank (ws comment : List UInt8) (crlf : Bool)
   | record (p : PRecord)
-  | origin (ls : List PLabel) (sep trail comment : List UInt8) (crlf : Bool)
-  | ttl (n : Nat) (sep trail comment : List UInt8) (crlf : Bool)
-  /-- `$INCLUDE <path> [<origin>]`: the path a string (quoted or not), the origin a name -/
-  | incl (path : PString) (origin : Option PName) (sep sep2 trail comment : List UInt8) (crlf : Bool)
+  /-- `$ORIGIN <absolute name>`; `gap` after the keyword, `tail` after the name -/
+  | origin (ls : List PLabel) (gap tail : PGap) (comment : List UInt8) (crlf : Bool)
+  /-- `$TTL <decimal>` -/
+  | ttl (n : Nat) (gap tail : PGap) (comment : List UInt8) (crlf : Bool)
+  /-- `$INCLUDE <path> [<origin>]`: the path a string (quoted or not), the origin a name; `gap2`
+      stands between them -/
+  | incl (path : PString) (origin : Option PName) (gap gap2 tail : PGap) (comment : List UInt8) (crlf : Bool)
   deriving Repr, Inhabited
 
 def ownerText : POwner → List UInt8
@@ -423,15 +426,15 @@ def renderRecord (p : PRecord) : List UInt8 :=
 def renderEntry : PEntry → List UInt8
   | .blank ws comment crlf => ws ++ comment ++ eolText crlf
   | .record p => renderRecord p
-  | .origin ls sep trail comment crlf =>
-    [36, 79, 82, 73, 71, 73, 78] ++ sep ++ renderAbsName ls ++ trail ++ comment ++ eolText crlf   -- `$ORIGIN`
-  | .ttl n sep trail comment crlf =>
-    [36, 84, 84, 76] ++ sep ++ decimal n ++ trail ++ comment ++ eolText crlf                       -- `$TTL`
-  | .incl path origin sep sep2 trail comment crlf =>
-    [36, 73, 78, 67, 76, 85, 68, 69] ++ sep ++ stringText path ++                                  -- `$INCLUDE`
+  | .origin ls gap tail comment crlf =>
+    [36, 79, 82, 73, 71, 73, 78] ++ gapText gap ++ renderAbsName ls ++ gapText tail ++ comment ++ eolText crlf   -- `$ORIGIN`
+  | .ttl n gap tail comment crlf =>
+    [36, 84, 84, 76] ++ gapText gap ++ decimal n ++ gapText tail ++ comment ++ eolText crlf                       -- `$TTL`
+  | .incl path origin gap gap2 tail comment crlf =>
+    [36, 73, 78, 67, 76, 85, 68, 69] ++ gapText gap ++ stringText path ++                                          -- `$INCLUDE`
       (match origin with
-       | some n => sep2 ++ nameText n
-       | none => []) ++ trail ++ comment ++ eolText crlf
+       | some n => gapText gap2 ++ nameText n
+       | none => []) ++ gapText tail ++ comment ++ eolText crlf
 
 def renderFile (es : List PEntry) : List UInt8 := es.flatMap renderEntry
 
@@ -524,15 +527,18 @@ inductive SItem where
 def denoteFile (valid : Nat → Nat → List UInt8 → Bool) : List PEntry → SCtx → Nat → Option (List SItem)
   | [], _, _ => some []
   | .blank _ _ _ :: es, c, line => denoteFile valid es c (line + 1)
-  | .origin ls _ _ _ _ :: es, c, line =>
-    denoteFile valid es { c with origin := some (wireName (ls.map labelOctets)) } (line + labelLines ls + 1)
-  | .ttl n _ _ _ _ :: es, c, line => denoteFile valid es { c with defaultTtl := some (ttlValue n) } (line + 1)
-  | .incl path origin _ _ _ _ _ :: es, c, line => do
+  | .origin ls gap tail _ _ :: es, c, line =>
+    denoteFile valid es { c with origin := some (wireName (ls.map labelOctets)) }
+      (line + gapLines gap + labelLines ls + gapLines tail + 1)
+  | .ttl n gap tail _ _ :: es, c, line =>
+    denoteFile valid es { c with defaultTtl := some (ttlValue n) } (line + gapLines gap + gapLines tail + 1)
+  | .incl path origin gap gap2 tail _ _ :: es, c, line => do
     let o ← match origin with
       | some n => (nameWire c.origin n).map some
       | none => some c.origin
     let rest ← denoteFile valid es c
-      (line + stringLines path + (match origin with | some n => nameLines n | none => 0) + 1)
+      (line + gapLines gap + stringLines path +
+        (match origin with | some n => gapLines gap2 + nameLines n | none => 0) + gapLines tail + 1)
     pure (.incl line (stringOctets path) o :: rest)
   | .record p :: es, c, line => do
     let (r, c') ← denoteRecord valid c line p
